@@ -196,3 +196,73 @@ func VerifH_TreeGeneration() {
 	verifCheckTree(t2, ps, leaves, "after restart", extra == 0 && m == n)
 	verifrt.Reach("restarted")
 }
+
+// VerifH_TreeCrash: crash consistency of the hash tree. n appends (sync threshold thld: a sync
+// runs inside every thld-th Append; optionally an explicit Sync after each append), the process
+// dies at operation number crashAt (counted over all appendable operations of the three logs);
+// what survives in each log is its durable image, with or without the writes not yet synced
+// (cutMode), possibly with a torn last commit entry. Reopening on those images never panics; if it succeeds, the recovered tree
+// holds at least every entry covered by a completed sync, and for every recovered size k <=
+// min(size, n) RootAt(k) and DataAt(k) are those of the first k payloads.
+func VerifH_TreeCrash() {
+	n, thld, crashAt := verifrt.Param("n"), verifrt.Param("syncThld"), verifrt.Param("crashAt")
+	explicitSync := verifrt.Param("explicitSync") == 1
+	clock := &verifClock{crashAt: crashAt}
+	pLog, dLog, cLog := &verifCrashApp{clock: clock}, &verifCrashApp{clock: clock}, &verifCrashApp{clock: clock}
+	t, err := OpenWith(pLog, dLog, cLog, verifOpts(thld, 8))
+	verifrt.Assert(err == nil, "open")
+	ps, leaves := verifPayloads(n, "payload")
+	acked := uint64(0)
+	for i := 0; i < n; i++ {
+		_, _, err := t.Append(ps[i])
+		if err != nil {
+			break
+		}
+		if explicitSync {
+			if t.Sync() != nil {
+				break
+			}
+		}
+		acked = t.latestSyncedNode
+	}
+	if clock.ops < crashAt {
+		verifrt.Skip() // the workload finished before the crash point: nothing new to check
+	}
+	verifrt.Reach("crashed")
+	// which unsynced writes reached the disk: per log either none (durable image only) or all
+	// of them (shape parameter cutMode, bits 0/1/2 = payload/digest/commit log); cutMode 8..11:
+	// as 4..7 with the last commit-log entry torn (5 of its 12 bytes written)
+	cutMode := verifrt.Param("cutMode")
+	cutP, cutD, cutC := 0, 0, 0
+	if cutMode&1 != 0 {
+		cutP = len(pLog.b)
+	}
+	if cutMode&2 != 0 {
+		cutD = len(dLog.b)
+	}
+	if cutMode&4 != 0 || cutMode >= 8 {
+		cutC = len(cLog.b)
+	}
+	if cutMode >= 8 {
+		if cutC < 12 {
+			verifrt.Skip()
+		}
+		cutC -= 7
+	}
+	t2, err := OpenWith(pLog.crashImage(cutP), dLog.crashImage(cutD), cLog.crashImage(cutC), verifOpts(thld, 8))
+	// commit-log entries are only written after the payload and digest logs are durable, so the
+	// recovered commit log never points beyond what the other two logs hold
+	verifrt.Assert(err == nil, "recovery succeeds at every crash point")
+	verifrt.Reach("recovered")
+	size := t2.Size()
+	verifrt.Assert(size >= acked, "every entry covered by a completed sync is recovered")
+	for k := 1; k <= n; k++ {
+		if uint64(k) <= size {
+			r, err := t2.RootAt(uint64(k))
+			verifrt.Assert(err == nil && r == verifMTH(leaves[:k]), "recovered root is the root of the first k payloads")
+			d, err := t2.DataAt(uint64(k))
+			verifrt.Assert(err == nil && bytes.Equal(d, ps[k-1]), "recovered payload is the k-th payload")
+		}
+	}
+	verifrt.Assert(size <= uint64(n), "nothing beyond what was appended is recovered")
+}
